@@ -34,6 +34,19 @@ FIXED = {  # key -> (property, commit subject prefix)
   "C17:exception:naconmax=0:ZeroDivisionError": ("C17", "fix: Newton solver does not divide by zero"),
   "C16:exception-before-overflow-flag:naconmax=0:ZeroDivisionError": ("C16", "fix: Newton solver does not divide by zero"),
   "C06:forward:efc_D-vs-mujoco:type0:sparse": ("C06", "fix: sparse connect/weld rows take their impedance weights"),
+  "C17:crash:sparse-small-njmax_nnz": ("C17", "fix: njmax_nnz overflow is flagged"),
+  "C16:crash-before-overflow-flag:sparse-njmax_nnz=0": ("C16", "fix: njmax_nnz overflow is flagged"),
+  "C16:crash-before-overflow-flag:sparse-small-njmax_nnz": ("C16", "fix: njmax_nnz overflow is flagged"),
+  "C16:nnz-overflow-unflagged:_efc_contact_init": ("C16", "fix: njmax_nnz overflow is flagged"),
+  "C16:nnz-overflow-unflagged:_equality_connect": ("C16", "fix: njmax_nnz overflow is flagged"),
+  "C16:nnz-overflow-unflagged:_equality_joint": ("C16", "fix: njmax_nnz overflow is flagged"),
+  "C16:nnz-overflow-unflagged:_equality_tendon": ("C16", "fix: njmax_nnz overflow is flagged"),
+  "C16:nnz-overflow-unflagged:_equality_weld": ("C16", "fix: njmax_nnz overflow is flagged"),
+  "C16:nnz-overflow-unflagged:_friction_dof": ("C16", "fix: njmax_nnz overflow is flagged"),
+  "C16:nnz-overflow-unflagged:_friction_tendon": ("C16", "fix: njmax_nnz overflow is flagged"),
+  "C16:nnz-overflow-unflagged:_limit_ball": ("C16", "fix: njmax_nnz overflow is flagged"),
+  "C16:nnz-overflow-unflagged:_limit_slide_hinge": ("C16", "fix: njmax_nnz overflow is flagged"),
+  "C16:nnz-overflow-unflagged:_limit_tendon": ("C16", "fix: njmax_nnz overflow is flagged"),
   "C04:capsule_capsule:in-gap-contact-dropped": ("C04", "fix: capsule-capsule keeps contacts inside the gap"),
   "C04:broadphase:explicit-pair-margin-ignored": ("C04", "fix: the broadphase filter does not reject explicit contact pairs"),
   "C18:filter:explicit-pair-margin-ignored": ("C18", "fix: the broadphase filter does not reject explicit contact pairs"),
